@@ -18,7 +18,8 @@ func init() {
 	register(&Check{
 		Meta: report.Meta{
 			Property: "C20",
-			Rule: "Q: explicit-state breadth-first search over container.Queue[int] with operations {Enqueue(next sequence number), Dequeue, Peek, Size}, states keyed by a reflective dump with payloads renumbered relative to the oldest live element (sound by parametricity of Queue[T]), " +
+			Rule: "LONG: queue and stack driven by every periodic pattern (head rotated by r<8, rounds of a<=5 insertions and b<a removals) up to 5000 (quick) / 40000 (thorough) elements and emptied again, twice, every removal and every size compared with a slice; a removal from an empty container is refused and leaves it empty; " +
+				"Q: explicit-state breadth-first search over container.Queue[int] with operations {Enqueue(next sequence number), Dequeue, Peek, Size}, states keyed by a reflective dump with payloads renumbered relative to the oldest live element (sound by parametricity of Queue[T]), " +
 				"every reachable configuration holding <= 136 (quick) / 300 (thorough) elements expanded (capacities 8..256 / 512: every growth with every position of the head, wrapped buffers included); K: the same for container.Stack[int] with {Push, PushAll(2 elements from a caller-owned slice that is overwritten and appended to right after the call), Pop, Peek, Size, Clear} up to 140 / 600 elements, to closure, keys include the capacity of the backing array; every transition compared with a slice model (returned values, sizes, panics only on empty) and followed by draining the container against the model (its whole observable state); " +
 				"T: the token stream of the indentation-aware lexer (parser.NewYarnSpinnerLexer drained through CommonTokenStream.Fill) on every byte string of length <=4 (quick) / 5 (thorough) over a 20-symbol alphabet reaching every lexer mode, raw and inside a node body, and on every line structure of <=4 (quick) / 5 (thorough) lines with indents from {0,1,2,4,8 spaces, tab, 2 tabs} x line kinds {text, option, blank, whitespace-only, comment, command, ===}; " +
 				"oracle: running INDENT-DEDENT count never negative, zero at EOF, exactly one EOF and it is last; a case is one container state x operation, or one lexer input; non-trivial = container holds >= 1 element / input has an indented line",
@@ -66,8 +67,8 @@ func applyQueue(hist []qop) (q *container.Queue[int], model []int, seq int, mism
 				if pan == nil {
 					return q, model, seq, fmt.Sprintf("operation %d: %s on an empty queue returned %d instead of panicking", i, name, got)
 				}
-				// the panic may have left the structure in any state: the history ends here
-				return q, model, seq, "END"
+				// a removal from the empty queue is refused (documented panic): the queue is still the empty queue
+				continue
 			}
 			if pan != nil {
 				return q, model, seq, fmt.Sprintf("operation %d: %s panicked on a queue holding %v: %v", i, name, model, pan)
@@ -237,7 +238,8 @@ func applyStack(hist []int) (s *container.Stack[int], model []int, seq int, mism
 				if pan == nil {
 					return s, model, seq, fmt.Sprintf("operation %d: %s on an empty stack returned %d instead of panicking", i, name, got)
 				}
-				return s, model, seq, "END"
+				pan = nil // a removal from the empty stack is refused (documented panic): the stack is still the empty stack
+				continue
 			}
 			if pan != nil {
 				return s, model, seq, fmt.Sprintf("operation %d: %s panicked on a stack holding %v: %v", i, name, model, pan)
@@ -414,6 +416,121 @@ func runC20(ctx *report.Ctx) {
 	if (ctx.Replay == nil && ctx.ShardIndex == 1%ctx.ShardCount) || (ctx.Replay != nil && ctx.Replay.Part == "K") {
 		runStackBFS(ctx, report.Pick(ctx, 140, 600), 1<<30)
 	}
+	// LONG: periodic histories far beyond the depth of the searches: rotate the head by r, then repeat (a insertions, b < a
+	// removals) until the container holds `top` elements, every removal and every size compared with the slice model, then
+	// empty it; for the stack also a Clear half way followed by the same again
+	top := report.Pick(ctx, 5000, 40000)
+	ctx.Bound("LONG", fmt.Sprintf("queue and stack filled to %d elements by every pattern (rotation r<8, a<=5 insertions, b<a removals per round)", top))
+	part(ctx, "LONG", -1, func(c *explore.Chooser) {
+		isStack := c.Choose(2, "container") == 1
+		r := c.Choose(8, "rotation")
+		a := 1 + c.Choose(5, "insertions-per-round")
+		b := c.Choose(a, "removals-per-round")
+		if !c.Mine() {
+			return
+		}
+		w := fmt.Sprintf("%s: %d insertions and removals first, then rounds of %d insertions and %d removals up to %d elements, then emptied", []string{"queue", "stack"}[b2i(isStack)], r, a, b, top)
+		ctx.Current("LONG: " + w)
+		ctx.AddEvals(1, 1)
+		ctx.AddStates(1)
+		var mm string
+		ops := int64(0)
+		pan := guard(func() {
+			q := &container.Queue[int]{}
+			st := &container.Stack[int]{}
+			var model []int
+			seq := 0
+			ins := func() {
+				if isStack {
+					st.Push(seq)
+				} else {
+					q.Enqueue(seq)
+				}
+				model = append(model, seq)
+				seq++
+				ops++
+			}
+			rem := func() bool {
+				var got, want, size int
+				if isStack {
+					got, want = st.Pop(), model[len(model)-1]
+					model = model[:len(model)-1]
+					size = st.Size()
+				} else {
+					got, want = q.Dequeue(), model[0]
+					model = model[1:]
+					size = q.Size()
+				}
+				ops++
+				if got != want {
+					mm = fmt.Sprintf("after %d operations a removal returned %d, the order of the container gives %d", ops, got, want)
+					return false
+				}
+				if size != len(model) {
+					mm = fmt.Sprintf("after %d operations Size is %d, the container holds %d elements", ops, size, len(model))
+					return false
+				}
+				return true
+			}
+			size := func() int {
+				if isStack {
+					return st.Size()
+				}
+				return q.Size()
+			}
+			for phase := 0; phase < 2 && mm == ""; phase++ {
+				for i := 0; i < r; i++ {
+					ins()
+				}
+				for i := 0; i < r; i++ {
+					if !rem() {
+						return
+					}
+				}
+				for len(model) < top {
+					for i := 0; i < a; i++ {
+						ins()
+						if n := size(); n != len(model) {
+							mm = fmt.Sprintf("after %d operations Size is %d, the container holds %d elements", ops, n, len(model))
+							return
+						}
+					}
+					for i := 0; i < b; i++ {
+						if !rem() {
+							return
+						}
+					}
+				}
+				if phase == 0 && isStack {
+					st.Clear() // then the same again on the cleared stack
+					model = model[:0]
+					if st.Size() != 0 {
+						mm = "Size is not 0 after Clear"
+						return
+					}
+					continue
+				}
+				for len(model) > 0 {
+					if !rem() {
+						return
+					}
+				}
+				if !isStack {
+					// a second fill of the emptied queue (the buffer is large now, the head somewhere in it)
+					continue
+				}
+			}
+		})
+		ctx.AddTransitions(ops)
+		ctx.AddTraces(1)
+		if pan != nil {
+			mm = fmt.Sprintf("panic after %d operations: %v", ops, pan)
+		}
+		if mm != "" {
+			ctx.Violation(report.Violation{Clause: map[bool]string{false: "queue-fifo", true: "stack-lifo"}[isStack], Witness: w, Detail: mm, Choices: c.Choices(), Part: "LONG"})
+		}
+	})
+
 	alphabet := []string{"a", "1", " ", "\n", "\t", "-", ">", "<", "{", "}", "#", "=", ":", "\\", "/", "\"", "$", "(", "\xc3\xa9", "\r"}
 	maxLen := report.Pick(ctx, 4, 5)
 	part(ctx, "T-bytes", -1, func(c *explore.Chooser) {
